@@ -17,20 +17,20 @@ import (
 )
 
 type Node struct {
-	Name    string // N0, O1 ...
-	Comm    byte   // 'O' old committee, 'N' new (or only) committee
-	Idx     int
-	PID     *tss.PartyID
-	Party   tss.Party
-	Out     chan tss.Message
-	Results func() int // total number of values received on the end channel so far
-	Started bool
-	Events  []string // per-node event log in model syntax
-	Obs     []string // per-event observations in model syntax
-	Emitted []string // all emitted descriptors (for cross-schedule comparison)
-	Errs    []string
+	Name     string // N0, O1 ...
+	Comm     byte   // 'O' old committee, 'N' new (or only) committee
+	Idx      int
+	PID      *tss.PartyID
+	Party    tss.Party
+	Out      chan tss.Message
+	Results  func() int // total number of values received on the end channel so far
+	Started  bool
+	Events   []string // per-node event log in model syntax
+	Obs      []string // per-event observations in model syntax
+	Emitted  []string // all emitted descriptors (for cross-schedule comparison)
+	Errs     []string
 	Culprits [][]string // per reported error: the node names of the culprits
-	Silent  bool // a silenced node: its emissions are dropped
+	Silent   bool       // a silenced node: its emissions are dropped
 }
 
 type Copy struct {
@@ -47,6 +47,7 @@ type Copy struct {
 
 type Net struct {
 	Proto   string
+	Label   string   // optional description of this run (configuration, seed) for crash attribution
 	Types   []string // message type names in table order
 	Old     []*Node
 	New     []*Node
@@ -244,8 +245,19 @@ func (net *Net) Deliver(c *Copy) (bool, *tss.Error) {
 // Strategy picks the next event: an index into pending copies, or -(k+1) to start the k-th unstarted node.
 type Strategy func(net *Net, unstarted []*Node) int
 
+// Inflight, when set, is told which run is about to execute (so that a panic in a library goroutine, which kills the
+// process, can be attributed to a concrete run).
+var Inflight func(desc string)
+
 // Run executes events until nothing is enabled. maxEvents bounds runaway loops.
 func (net *Net) Run(st Strategy, maxEvents int) {
+	if Inflight != nil {
+		d := net.Label
+		if d == "" {
+			d = fmt.Sprintf("%s run with %d old / %d new parties", net.Proto, len(net.Old), len(net.New))
+		}
+		Inflight(d)
+	}
 	for steps := 0; steps < maxEvents; steps++ {
 		var un []*Node
 		for _, n := range net.Nodes() {
